@@ -95,6 +95,16 @@ class PopGen(object):
             for T in cs[:self.max_complex]:
                 plan.append(('complex', T))
         rng.shuffle(plan)
+        if not self.ok('ref_cycle'):
+            def need(pl):
+                names = [pl[1]] if pl[0] == 'simple' else pl[1]
+                n = 0
+                for en in names:
+                    for (_o, a, d) in (s.all_attrs(en) if pl[0] == 'simple' else s.own_attrs(en, names)):
+                        if not a.optional and not d and self._needs_entity(a.type):
+                            n += 1
+                return n
+            plan.sort(key=need)
         # ids
         ids = []
         cur = rng.choice([1, 1, 10, 100])
@@ -109,6 +119,7 @@ class PopGen(object):
             else:
                 member[iid] = set(pl[1])
         self.member = member
+        self.plan_pos = dict((iid, k) for k, iid in enumerate(ids))
         self.complex_ids = set(iid for iid, pl in zip(ids, plan) if pl[0] == 'complex')
         self.simple_entity = dict((iid, pl[1]) for iid, pl in zip(ids, plan) if pl[0] == 'simple')
         insts = []
@@ -148,6 +159,9 @@ class PopGen(object):
 
     def ref_to(self, ename, self_id, from_select=False):
         cands = [i for i, m in self.member.items() if ename in m]
+        if not self.ok('ref_cycle'):
+            # acyclic populations only: references go to instances planned earlier
+            cands = [i for i in cands if self.plan_pos[i] < self.plan_pos[self_id]]
         if from_select and not self.ok('select_ref_complex'):
             cands = [i for i in cands if i not in self.complex_ids]
         if from_select and not self.ok('select_ref_secondary_super'):
@@ -155,6 +169,19 @@ class PopGen(object):
         if not cands:
             return None
         return ('ref', self.rng.choice(cands))
+
+    def _needs_entity(self, t):
+        if t.kind == 'entity':
+            return True
+        if t.kind == 'aggr':
+            return (t.lo or 0) > 0 and self._needs_entity(t.elem) or (t.akind == 'ARRAY' and self._needs_entity(t.elem))
+        if t.kind == 'named':
+            td = self.s.type(t.name)
+            if td.kind == 'simple':
+                return self._needs_entity(td.base)
+            if td.kind == 'select':
+                return all(k is None for k, _lt in self.s.select_leaves(td))
+        return False
 
     def primary_chain(self, en):
         out = [en]
